@@ -37,8 +37,9 @@ class Unit(object):
 
     def __init__(self, prop, name, target, params, requires=(), ensures=(), raises=(), loops=None, ghost=(),
                  init="", folds=None, list_kinds=None, exits=None, slice=None, defaults=None, note="",
-                 ensures_raise=(), uses_join=False):
+                 ensures_raise=(), uses_join=False, callees=None):
         self.uses_join = uses_join
+        self.callees = callees or {}
         self.prop, self.name, self.target = prop, name, target
         self.params = params
         self.requires = list(requires)
@@ -102,7 +103,7 @@ class Executor(EvalMixin, MethodsMixin, ExecMixin):
         self.try_depth = []
         self.known_chars = set()
         self.late_axioms = []
-        self.method_contracts = {}
+        self.method_contracts = dict(unit.callees)
         self.ghost_names = set()
         self.builtins = self.make_builtins()
         self.special_forms = self.make_special_forms()
@@ -112,6 +113,8 @@ class Executor(EvalMixin, MethodsMixin, ExecMixin):
 
     # -- safety with try/except awareness
     def safety(self, st, exc, goal, node, note=""):
+        if self.in_contract:
+            return EvalMixin.safety(self, st, exc, goal, node, note)
         for handled, implicit in reversed(self.try_depth):
             if exc in handled or "*" in handled:
                 g = z3.simplify(goal)
